@@ -11,6 +11,37 @@ which task and in which order they complete.
 import pickle
 
 
+class _Star:
+    def __init__(self, func, kwds=None):
+        self.func, self.kwds = func, kwds or {}
+
+    def __call__(self, args):
+        return self.func(*args, **self.kwds)
+
+
+class _Async:
+    def __init__(self, value):
+        self.value = value
+
+    def get(self, timeout=None):
+        return self.value
+
+    def result(self, timeout=None):
+        return self.value
+
+    def wait(self, timeout=None):
+        pass
+
+    def ready(self):
+        return True
+
+    def successful(self):
+        return True
+
+    def done(self):
+        return True
+
+
 class _SimPoolBase:
     flavour = 'base'
 
@@ -38,7 +69,13 @@ class _SimPoolBase:
             self.stats['pool_reordered_maps'] = self.stats.get(
                 'pool_reordered_maps', 0) + 1
         self.log.append((n, tuple(order), tuple(workers)))
+        self.last_completion_order = order
         return results
+
+    def _unordered(self, func, iterable):
+        """Results in the (seeded) order in which the tasks completed."""
+        results = self._run(func, iterable)
+        return [results[i] for i in self.last_completion_order]
 
 
 class MPPool(_SimPoolBase):
@@ -49,8 +86,34 @@ class MPPool(_SimPoolBase):
         _SimPoolBase.__init__(self, size, rng, stats)
         self._processes = self._n
 
-    def map(self, func, iterable):
+    def map(self, func, iterable, chunksize=None):
         return self._run(func, iterable)
+
+    # the rest of the multiprocessing.Pool surface, so that code which
+    # consumes results in completion order is executable (and caught)
+    def imap(self, func, iterable, chunksize=1):
+        return iter(self._run(func, iterable))
+
+    def imap_unordered(self, func, iterable, chunksize=1):
+        return iter(self._unordered(func, iterable))
+
+    def starmap(self, func, iterable, chunksize=None):
+        return self._run(_Star(func), iterable)
+
+    def map_async(self, func, iterable, chunksize=None, callback=None):
+        return _Async(self._run(func, iterable))
+
+    def apply_async(self, func, args=(), kwds=None):
+        return _Async(self._run(_Star(func, kwds), [args])[0])
+
+    def close(self):
+        pass
+
+    def join(self):
+        pass
+
+    def terminate(self):
+        pass
 
 
 class ExecutorPool(_SimPoolBase):
@@ -61,8 +124,14 @@ class ExecutorPool(_SimPoolBase):
         _SimPoolBase.__init__(self, size, rng, stats)
         self._max_workers = self._n
 
-    def map(self, func, iterable):
+    def map(self, func, iterable, timeout=None, chunksize=1):
         return iter(self._run(func, iterable))
+
+    def submit(self, func, *args, **kwargs):
+        return _Async(self._run(_Star(func, kwargs), [args])[0])
+
+    def shutdown(self, wait=True):
+        pass
 
 
 class MPIPool(_SimPoolBase):
